@@ -234,8 +234,9 @@ def rule_range(ctx):
             else:
                 # last_height = start_height + count - 1
                 d = q.assigns(ctx, g, norm(cc.args[1])) if isinstance(cc.args[1], ast.Name) else []
+                hexpr = d[0].value if len(d) == 1 else (cc.args[1] if not isinstance(cc.args[1], ast.Name) else None)
                 try:
-                    okc = okc and len(d) == 1 and q.lin_eq(q.linear(ctx, g, d[0].value), {'start_height': 1, 'count': 1, '': -1})
+                    okc = okc and hexpr is not None and q.lin_eq(q.linear(ctx, g, hexpr), {'start_height': 1, 'count': 1, '': -1})
                 except q.NotLinear:
                     okc = False
             # the leaf height is not negative: height itself is validated; start + count - 1 needs count >= 1
